@@ -18,7 +18,9 @@ ASSUMPTIONS = [
     "start values are drawn from a finite set built through every SequenceStart constructor path",
 ]
 
-VALUES = (0, 1, 9, 240, 1756)
+# the library's own factories produce negative starts (InitSequenceStart.from_init_values(1, 2).value == -4) and starts
+# near the top of the two-byte range; "arbitrary start values" includes both
+VALUES = (0, 1, 9, 240, 1756, -4, 64005)
 CTORS = ("zero", "account", "init", "ping", "simple")
 
 
@@ -146,6 +148,12 @@ class SeqProduct(explorer.Product):
         return (explorer.snapshot(st["a"]), explorer.snapshot(st["b"]), st["model"].start, st["model"].n % 10, bool(st.get("broken")), bool(st.get("forked")))
 
 
+def _explore_from(job):
+    init, values = job
+    loader.install_shims()
+    return explorer.explore(SeqProduct(init, values), max_violations=2, max_states=20000)
+
+
 def _deep_histories(shard):
     """All histories of a fixed depth over {next, set v0, set v1}; no deduplication."""
     first_ops, depth, vals = shard
@@ -185,7 +193,7 @@ def _macro_runs(values, depth):
     """Histories over macro-ops {next x1, next x9, next x10, set a, set b}: several wrap-arounds with several updates
     in between, without deduplication."""
     prod = SeqProduct(("zero", 0), values)
-    macros = [[("next",)], [("next",)] * 9, [("next",)] * 10, [("set", "account", values[1])], [("set", "ping", values[3])]]
+    macros = [[("next",)], [("next",)] * 9, [("next",)] * 10, [("set", "account", values[5])], [("set", "ping", values[3])]]
     count, bad = 0, []
     for combo in itertools.product(range(len(macros)), repeat=depth):
         hist = [op for i in combo for op in macros[i]]
@@ -198,13 +206,15 @@ def _macro_runs(values, depth):
 
 def run(tier, seed):
     loader.install_shims()
-    values = VALUES if tier == "quick" else VALUES + (7, 252, 1757, 64008)
+    values = VALUES if tier == "quick" else VALUES + (7, 252, 1757, 64008, -9, -13)
     tot_states = tot_trans = 0
     violations, samples = [], []
     fix = True
+    capped = False
     maxd = 0
-    for init in start_menu(values):
-        st = explorer.explore(SeqProduct(init, values), max_violations=2)
+    inits = start_menu(values)
+    for init, st in zip(inits, par.pmap(_explore_from, [(init, values) for init in inits])):
+        capped |= st.capped
         tot_states += st.states
         tot_trans += st.transitions
         fix &= st.fixpoint
@@ -222,7 +232,7 @@ def run(tier, seed):
     depth = 12 if tier == "quick" else 14
     prefix_len = 3
     firsts = list(itertools.product(range(3), repeat=prefix_len))
-    res = par.pmap(_deep_histories, [(c, depth, (values[1], values[3])) for c in par.chunks(firsts, par.WORKERS)])
+    res = par.pmap(_deep_histories, [(c, depth, (values[5], values[3])) for c in par.chunks(firsts, par.WORKERS)])
     deep = sum(r[0] for r in res)
     for _, bads in res:
         for hist, what in bads:
@@ -259,6 +269,7 @@ def run(tier, seed):
         "evaluations": tot_trans + deep + longc,
         "distinct_nontrivial": tot_states,
         "fixpoint_reached": fix,
+        "state_cap_hit": capped,
         "max_depth_reached": maxd,
         "undeduplicated_histories": deep,
         "undeduplicated_depth": depth,
